@@ -12,6 +12,7 @@ import (
 	experimentalsys "github.com/tetratelabs/wazero/experimental/sys"
 	internalsys "github.com/tetratelabs/wazero/internal/sys"
 	"github.com/tetratelabs/wazero/internal/sysfs"
+	"github.com/tetratelabs/wazero/internal/wasm"
 	"github.com/tetratelabs/wazero/sys"
 )
 
@@ -320,3 +321,27 @@ func runtimeClosed(r *runtime) bool { return r.closed.Load() != 0 }
 //@     invariant verif_fresh_slice(environ) && 0 <= i && i&1 == 0 && len(c.environ)&1 == 0
 //@   loop 1 (key []byte, value []byte, keyLen int, valueLen int, result []byte, j int)
 //@     invariant 0 <= j && j <= keyLen && keyLen == len(key) && valueLen == len(value) && len(result) == keyLen+valueLen+1
+
+// ---- C06: a start function that fails - with a trap, a host panic or an exit - does not leave its module
+// behind: InstantiateModule closes the module before it reports the failure (or the exit).
+func gl(n string) int { return verif_ghost_int(n) }
+
+var _ *wasm.ModuleInstance
+
+//@ prop C06
+//@ iface (f api.Function) Call(ctx context.Context, params ...uint64) ([]uint64, error)
+//@   ensures (r1 != nil ==> gl("L:startFailed") == 1) && (r1 == nil ==> gl("L:startFailed") == old(gl("L:startFailed"))) && gl("L:closedSince") == 0
+//@   modifies all, ghost("L:startFailed"), ghost("L:closedSince")
+//@ iface (m api.Module) Close(ctx context.Context) error
+//@   ensures gl("L:closedSince") == 1 && gl("L:startFailed") == old(gl("L:startFailed"))
+//@   modifies all, ghost("L:startFailed"), ghost("L:closedSince")
+//@ func (m *wasm.ModuleInstance) Close(ctx context.Context) error
+//@   trusted
+//@   ensures gl("L:closedSince") == 1 && gl("L:startFailed") == old(gl("L:startFailed"))
+//@   modifies all, ghost("L:startFailed"), ghost("L:closedSince")
+
+//@ case start-failure (r *runtime) InstantiateModule(ctx context.Context, compiled CompiledModule, mConfig ModuleConfig) (mod api.Module, err error)
+//@   requires isModuleConfig(mConfig) && gl("L:startFailed") == 0
+//@   ensures[module-closed-when-a-start-function-fails] gl("L:startFailed") == 1 ==> gl("L:closedSince") == 1
+//@   nosafety
+//@   inline-depth 1
